@@ -441,29 +441,7 @@ def macroAtoms (lit : List Char) : Except MacroErr (List Atom) :=
     | .panic site => .error (.parserPanic site)
     | .diverge => .error (.parserPanic "diverge")
 
-/-- how a char may be written in the literal: `esc = true` uses the backslash form where one exists.
-`"` and `\` must be escaped (rustc would end the literal / start an escape). -/
-def escChar (esc : Bool) (c : Char) : List Char :=
-  if c = '\\' then ['\\', '\\']
-  else if c = '"' then ['\\', '"']
-  else if esc then
-    if c = '\'' then ['\\', '\'']
-    else if c = '\t' then ['\\', 't']
-    else if c = '\r' then ['\\', 'r']
-    else if c = '\n' then ['\\', 'n']
-    else [c]
-  else [c]
-
-/-- body of the literal: per char a choice between the verbatim and the backslash form
-(missing choices default to the backslash form) -/
-def escapeBody : List Bool → List Char → List Char
-  | _, [] => []
-  | [], c :: cs => escChar true c ++ escapeBody [] cs
-  | b :: bs, c :: cs => escChar b c ++ escapeBody bs cs
-
-/-- reference escaper: a Rust string literal denoting `cs` -/
-def escapeWith (choices : List Bool) (cs : List Char) : List Char := '"' :: (escapeBody choices cs ++ ['"'])
-
-def escape (cs : List Char) : List Char := escapeWith [] cs
+-- The reference escaper `escapeWith` (a literal *writer*, specification vocabulary of C17) lives in
+-- Spec/RustLiteral.lean.
 
 end Pelite.Pattern
